@@ -106,6 +106,11 @@ func runC02(p *Program, e *Engine, r *Result, tier string) {
 	// (5) a listed path that now names another file does not keep reporting the old file under that name
 	if tf := findTables(a); tf != nil {
 		c04Replace(a, tf, ro.API["AddWith"], "C02.5")
+		// (6) a watch whose file was renamed away is ended, so that later changes of that file cannot be reported under
+		// the name it no longer has (shared with C09.2)
+		if _, hv2, hctx2, entry, watchLit, maskSubj := handlerFrame(a, df, tf); hctx2 != nil {
+			c09MoveSelf(a, df, tf, hv2, hctx2, entry, *watchLit, watchLit.A.Subj, maskSubj, "C02.6")
+		}
 	}
 }
 
